@@ -30,7 +30,7 @@ pub struct Aes128Key {
     buf: Buffer,
 }
 
-#[cfg(gufo_snmp_verif)]
+#[cfg(all(gufo_snmp_verif, not(gufo_snmp_verif_nostate)))]
 impl Aes128Key {
     /// (next salt counter, private buffer length)
     pub fn verif_state(&self) -> (u64, usize) {
